@@ -305,6 +305,36 @@ func gen(tier string, rng *h.Rng, emit func(string)) {
 		emit("t12 finexp " + randFes(12, i%2))
 	}
 	emit("t12 finexp " + one(12))
+	// receiver / operand aliasing of every tower method: receiver = first operand, = second operand,
+	// both operands the same object, all three the same object (a method that stores part of its result
+	// before it has read every input is wrong only under one of these)
+	for rep := 0; rep < 2*scale; rep++ {
+		for _, al := range aliases[1:] {
+			for _, op := range t2bin {
+				emit("t2a " + op + " " + al + " " + randFes(2, rep%2) + " " + randFes(2, 0))
+			}
+			for _, op := range t6bin {
+				emit("t6a " + op + " " + al + " " + randFes(6, rep%2) + " " + randFes(6, 0))
+			}
+			for _, op := range t12bin {
+				emit("t12a " + op + " " + al + " " + randFes(12, rep%2) + " " + randFes(12, 0))
+			}
+		}
+		for _, op := range t2un {
+			emit("t2a " + op + " ca " + randFes(2, rep%2))
+		}
+		emit("t2a muls ca " + randFes(2, 0) + " " + randFes(1, 0))
+		for _, op := range t6un {
+			emit("t6a " + op + " ca " + randFes(6, rep%2))
+		}
+		emit("t6a muls ca " + randFes(6, 0) + " " + randFes(2, 0))
+		emit("t6a mulg ca " + randFes(6, 0) + " " + randFes(1, 0))
+		for _, op := range t12un {
+			emit("t12a " + op + " ca " + randFes(12, rep%2))
+		}
+		emit(fmt.Sprintf("t12a exp ca %s %s", randFes(12, 0), randScalar(rng)))
+	}
+	emit("t12a finexp ca " + randFes(12, 0))
 
 	// ---------------- G1
 	G := refG1()
@@ -508,6 +538,37 @@ func gen(tier string, rng *h.Rng, emit func(string)) {
 		emit("check " + strings.Join(items, "|"))
 	}
 
+	// an identity (in G1, in G2, in both) at EVERY position of a multi-pairing whose partial products are != 1:
+	// the expected value is the product of the individual reference pairings of the other pairs
+	for rep := 0; rep < scale; rep++ {
+		a1, b1, a2, b2 := dl(), dl(), dl(), dl()
+		for a1.Sign() == 0 || b1.Sign() == 0 || a2.Sign() == 0 || b2.Sign() == 0 {
+			a1, b1, a2, b2 = dl(), dl(), dl(), dl()
+		}
+		s12 := new(big.Int).Add(new(big.Int).Mul(a1, b1), new(big.Int).Mul(a2, b2))
+		s12.Mod(s12, refOrder)
+		P1, Q1, P2, Q2 := refMul(G, a1), refMul(refG2, b1), refMul(G, a2), refMul(refG2, b2)
+		Pc := refNeg(refMul(G, s12)) // e(Pc, G2) cancels the first two
+		O := refPt{inf: true}
+		ids := [][2]refPt{{O, Q1}, {P2, O}, {O, O}}
+		for _, id := range ids {
+			idStr := func() string { return pairStr(id[0], id[1], false, false) }
+			base := []string{pairStr(P1, Q1, false, rng.Bool()), pairStr(P2, Q2, rng.Bool(), false), pairStr(Pc, refG2, false, false)}
+			for pos := 0; pos <= 3; pos++ { // product one: expected true wherever the identity sits
+				items := append(append(append([]string{}, base[:pos]...), idStr()), base[pos:]...)
+				emit("check " + strings.Join(items, "|"))
+			}
+			two := base[:2] // product e(P1,Q1) e(P2,Q2) != 1 (unless s12 = 0): expected false wherever the identity sits
+			for pos := 0; pos <= 2; pos++ {
+				items := append(append(append([]string{}, two[:pos]...), idStr()), two[pos:]...)
+				emit("check " + strings.Join(items, "|"))
+			}
+			// a single non-trivial pair followed / preceded by the identity
+			emit("check " + base[0] + "|" + idStr())
+			emit("check " + idStr() + "|" + base[0])
+		}
+	}
+
 	// ---------------- API programs
 	for _, p := range directedAPI() {
 		emit("api " + p)
@@ -577,6 +638,16 @@ func directedAPI() []string {
 		// GT as a group
 		"e0=base;e1=null;e2=add:e0,e1;e3=neg:e0;e4=add:e0,e3;e5=mul:" + r1 + ",e0;e6=add:e5,e0;e7=mul:0,e0;e8=clone:e0",
 		"p0=base;q0=base;p1=mul:3,p0;q1=mul:5,q0;e0=pair:p1,q1;e1=pair:p0,q0;e2=mul:15,e1;e3=sub:e0,e2",
+		// receiver = SECOND operand, receiver = both operands, for Add / Sub / Mul in G1, G2 and GT
+		"p0=base;p1=mul:5,p0;p1=add:p0,p1;p2=mul:7,p0;p2=sub:p0,p2;p3=mul:9,p0;p3=add:p3,p3;p4=mul:4,p0;p4=sub:p4,p4;p5=mul:3,p0;p5=mul:11,p5",
+		"q0=base;q1=mul:5,q0;q1=add:q0,q1;q2=mul:7,q0;q2=sub:q0,q2;q3=mul:9,q0;q3=add:q3,q3;q4=mul:4,q0;q4=sub:q4,q4;q5=mul:3,q0;q5=mul:11,q5",
+		"p0=base;q0=base;p1=mul:3,p0;e0=pair:p0,q0;e1=pair:p1,q0;e1=add:e0,e1;e2=pair:p1,q0;e2=sub:e0,e2;e3=pair:p1,q0;e3=add:e3,e3;e4=pair:p1,q0;e4=sub:e4,e4;e5=pair:p1,q0;e5=mul:6,e5;e6=pair:p1,q0;e6=neg:e6",
+		"e0=base;e1=mul:5,e0;e1=add:e0,e1;e1=add:e0,e1;e2=mul:2,e0;e2=add:e2,e1;e2=add:e1,e2",
+		// PairingCheck with an identity in every position among pairs whose partial products are not one
+		"p0=base;q0=base;p1=mul:3,p0;q1=mul:5,q0;p2=mul:15,p0;p2=neg:p2;pn=null;qn=null;" +
+			"b0=chk:p1,q1,p2,q0,pn,q0;b1=chk:p1,q1,pn,q0,p2,q0;b2=chk:pn,q0,p1,q1,p2,q0;" +
+			"b3=chk:p1,q1,p2,q0,p0,qn;b4=chk:p1,q1,p0,qn,p2,q0;b5=chk:p0,qn,p1,q1,p2,q0;" +
+			"b6=chk:p1,q1,pn,q0;b7=chk:p1,q1,p0,qn;b8=chk:pn,q0,p1,q1;b9=chk:p1,q1,pn,qn,p0,q0",
 	}
 }
 
@@ -630,6 +701,11 @@ func randomAPI(rng *h.Rng) string {
 	for i := 0; i < 1+rng.Intn(2); i++ {
 		ops = append(ops, fmt.Sprintf("e%d=pair:%s,%s", ne, old("p", np), old("q", nq)))
 		ne++
+	}
+	if ne >= 2 { // GT: receiver = second operand, then receiver = both operands
+		ops = append(ops, fmt.Sprintf("e%d=add:e0,e%d", ne-1, ne-1), "e0=add:e0,e0")
+	} else {
+		ops = append(ops, "e0=sub:e0,e0")
 	}
 	p, q := old("p", np), old("q", nq)
 	ops = append(ops, fmt.Sprintf("p%d=neg:%s", np, p))
